@@ -4,7 +4,7 @@
 \*
 \* Model: a kinematic tree of at most MaxBodies bodies in depth-first order.  Every body carries at most one joint (slide
 \* or hinge on a signed coordinate axis, integer anchor, integer reference position), an explicit inertial frame (integer
-\* mass and offset), and one site / geom / camera at a common integer offset and axis-aligned orientation; the static
+\* mass and offset, axis-aligned orientation iR), and one site / geom / camera at a common integer offset and axis-aligned orientation; the static
 \* body orientations are among the 24 axis-aligned rotations and hinge angles are quarter turns, so every frame is a
 \* signed permutation matrix and every position an integer vector.  Actuators (joint transmission, integer gear, fixed
 \* gain, affine bias), one optional fixed tendon, and a LIST OF SENSORS complete the model.
@@ -39,7 +39,9 @@ EXTENDS Integers, Sequences, FiniteSets, TLC
 CONSTANTS MinBodies, MaxBodies,
           JTypes,      \* subset of {"none", "slide", "hinge"}
           Axes,        \* subset of {-3,-2,-1,1,2,3}
-          Offsets, Rots, Anchors, Refs, Masses, IPoss, SitePos, SiteRots,
+          Offsets, Rots, Anchors, Refs, Masses, IPoss,
+          IRots,       \* orientation of the inertial frame in the body frame (subset of Rot24)
+          SitePos, SiteRots,
           Zones,       \* touch zones <<type, h1, h2, h3>>: "sphere" radius (2 h1 + 1)/2 | "box" half sizes (2 hi + 1)/2
           MaxActs, Gears, Gains, Biases,
           TenCoefs,    \* coefficients of the fixed tendon ({0}: no tendon)
@@ -150,12 +152,12 @@ Init == /\ stage = "body" /\ B = << >> /\ A = << >> /\ ten = << >> /\ S = << >> 
 \* ------------------------------------------------------------------------------------------------
 \* build phase
 \* ------------------------------------------------------------------------------------------------
-AddBody(par, jt, ax, pos, R, anc, ref, mass, ipos, spos, sR, zone) ==
+AddBody(par, jt, ax, pos, R, anc, ref, mass, ipos, iR, spos, sR, zone) ==
   /\ stage = "body" /\ n < MaxBodies
   /\ (~Rand /\ jt = "none") => (ax = OneOf(Axes) /\ anc = OneOf(Anchors) /\ ref = OneOf(Refs))
   /\ B' = Append(B, [par |-> par, jt |-> jt, ax |-> ax, pos |-> pos, R |-> R,
                      anc |-> IF jt = "none" THEN Z3 ELSE anc, ref |-> IF jt = "none" THEN 0 ELSE ref,
-                     mass |-> mass, ipos |-> ipos, spos |-> spos, sR |-> sR, zone |-> zone])
+                     mass |-> mass, ipos |-> ipos, iR |-> iR, spos |-> spos, sR |-> sR, zone |-> zone])
   /\ UNCHANGED <<stage, A, ten, S, lay, st, con, kin, vel, act, sd, obs, round, ev>>
 BodiesDone == /\ stage = "body" /\ n >= MinBodies
               /\ stage' = "act"
@@ -254,7 +256,7 @@ KinBody ==
          P1 == IF bb.jt = "hinge" THEN VSub(an, MV(R1, bb.anc))
                ELSE IF bb.jt = "slide" THEN VAdd(P0, VScl(dq, ax)) ELSE P0
      IN kin' = Append(kin, [xpos |-> P1, xmat |-> R1, anc |-> an,
-                            axis |-> ax, xipos |-> VAdd(P1, MV(R1, bb.ipos)),
+                            axis |-> ax, xipos |-> VAdd(P1, MV(R1, bb.ipos)), ximat |-> MM(R1, bb.iR),
                             spos |-> VAdd(P1, MV(R1, bb.spos)), smat |-> MM(R1, bb.sR)])
   /\ stage' = IF Len(kin) + 1 < n THEN "kin" ELSE IF HasTouch /\ MaxCon > 0 THEN "con" ELSE "spos"
   /\ UNCHANGED <<B, A, ten, S, lay, st, con, vel, act, sd, obs, round, ev>>
@@ -269,9 +271,12 @@ ContactsDone == /\ stage = "con"
                 /\ stage' = "spos"
                 /\ UNCHANGED <<B, A, ten, S, lay, st, con, kin, vel, act, sd, obs, round, ev>>
 
-\* pose of an object
+\* pose of an object, per the documentation of the object types:
+\*   "xbody"                    the regular body frame                     (xpos,  xmat)
+\*   "body"                     the body's INERTIAL frame                  (xipos, ximat = xmat * inertial orientation)
+\*   "geom", "site", "camera"   the element's own frame on its body        (here all three share the site's pose)
 PosOf(o) == CASE o[1] = "xbody" -> kin[o[2]].xpos [] o[1] = "body" -> kin[o[2]].xipos [] OTHER -> kin[o[2]].spos
-MatOf(o) == IF o[1] \in {"xbody", "body"} THEN kin[o[2]].xmat ELSE kin[o[2]].smat
+MatOf(o) == CASE o[1] = "xbody" -> kin[o[2]].xmat [] o[1] = "body" -> kin[o[2]].ximat [] OTHER -> kin[o[2]].smat
 \* velocity of the point P of body b (rigid body: v_origin + w x (P - origin))
 WOf(b) == vel[b].w
 VAt(b, P) == VAdd(vel[b].vo, Cross(vel[b].w, VSub(P, kin[b].xpos)))
@@ -399,8 +404,9 @@ SensAcc ==
 SeqsOver(X, k) == [1..k -> X]
 Next ==
   \/ \E par \in Pick(Parents), jt \in Pick(JTypes), ax \in Pick(Axes), pos \in Pick(Offsets), R \in Pick(Rots),
-        anc \in Pick(Anchors), ref \in Pick(Refs), mass \in Pick(Masses), ipos \in Pick(IPoss), spos \in Pick(SitePos),
-        sR \in Pick(SiteRots), zone \in Pick(Zones) : AddBody(par, jt, ax, pos, R, anc, ref, mass, ipos, spos, sR, zone)
+        anc \in Pick(Anchors), ref \in Pick(Refs), mass \in Pick(Masses), ipos \in Pick(IPoss), iR \in Pick(IRots),
+        spos \in Pick(SitePos), sR \in Pick(SiteRots), zone \in Pick(Zones) :
+        AddBody(par, jt, ax, pos, R, anc, ref, mass, ipos, iR, spos, sR, zone)
   \/ BodiesDone
   \/ (stage = "act" /\ Jointed # {} /\ \E jb \in Pick(Jointed), gear \in Pick(Gears), kp \in Pick(Gains), bias \in Pick(Biases) :
         AddAct(jb, gear, kp, bias))
@@ -428,7 +434,7 @@ Owner(k) == CHOOSE i \in 1..ns : lay.adr[i] < k /\ k <= lay.adr[i] + lay.dim[i]
 StageNo == CASE stage = "vel" -> 1 [] stage \in {"act2", "sacc"} -> 2 [] stage \in {"state", "end"} -> 3 [] OTHER -> 0
 
 TypeOK == /\ n <= MaxBodies /\ na <= MaxActs /\ ns <= MaxSensors
-          /\ \A b \in 1..n : B[b].par < b /\ B[b].R \in Rot24 /\ B[b].sR \in Rot24
+          /\ \A b \in 1..n : B[b].par < b /\ B[b].R \in Rot24 /\ B[b].sR \in Rot24 /\ B[b].iR \in Rot24
           /\ Compiled => Len(sd) = lay.nsd
           /\ \A k \in 1..Len(sd) : IsNum(sd[k]) => (sd[k][2] > 0 /\ (sd[k][3] # 0 => sd[k][2] = 1))
           /\ stage \in {"con", "kin", "spos"} => \A k \in 1..Len(sd) : sd[k] = Sent
@@ -449,7 +455,7 @@ CutoffRespected == Compiled => \A k \in 1..lay.nsd : IsNum(sd[k]) =>
 \* every comparison with a cutoff was decided by the rational bounds of pi
 CutoffDecidable == \A k \in 1..Len(sd) : sd[k] # Undec
 \* frames are proper rotations
-FramesProper == \A b \in 1..Len(kin) : kin[b].xmat \in Rot24 /\ kin[b].smat \in Rot24
+FramesProper == \A b \in 1..Len(kin) : kin[b].xmat \in Rot24 /\ kin[b].smat \in Rot24 /\ kin[b].ximat \in Rot24
 \* a relative frame position maps back to the world position; an object seen from itself is at the origin, at rest
 Slice(i) == SubSeq(sd, lay.adr[i] + 1, lay.adr[i] + lay.dim[i])
 IntVec(sl) == <<sl[1][1], sl[2][1], sl[3][1]>>
@@ -490,6 +496,7 @@ Rz == <<<<0, -1, 0>>, <<1, 0, 0>>, <<0, 0, 1>>>>
 R_One == {I3}
 R_Two == {I3, MM(Rx, Rz)}
 R_XZ == {MM(Rx, Rz)}
+R_Y == {Ry}
 R_All == Rot24
 J_All == {"none", "slide", "hinge"}
 J_SH == {"slide", "hinge"}
@@ -536,6 +543,8 @@ D_Both == {0, 1}
 D_Rare == 0..7
 OT_All == {"xbody", "body", "geom", "site", "camera"}
 OT_Two == {"xbody", "site"}
+OT_BS == {"body", "site"}
+OT_BX == {"body", "xbody"}
 OT_Site == {"site"}
 OT_None == {}
 K_Layout == {"jointpos", "framepos", "jointvel", "gyro", "actuatorfrc", "touch", "clock", "user", "framezaxis"}
